@@ -1,5 +1,6 @@
 import Driver.JsonIO
 import RulioModel.Spec
+import RulioModel.Subst
 open Lean
 
 /-! Model-side execution of location histories (kind "loc"). One case = one history; one result per op. -/
@@ -98,6 +99,74 @@ def applyEffects (sys : Sys) (c : Ctx) (n : String) (now : Int) (cands : List (S
   let vals := rules'.flatMap (fun r => r.conds.flatMap (fun cn => (cn.acts.filter (·.ok)).map (·.value)))
   (sys', { t with rules := rules', values := vals })
 
+/-! ### actions with an HTTP endpoint (template "post")
+
+`getActionFunc` POSTs `{"bindings": bs, "opts": a.Opts, "code": C}`: `bs` are the bindings of that execution with their `?`
+prefixes (`?event`, `?location`, `?ruleId` included), absent opts are `null`, `C` is the action's code string as is, or with
+`subvars` (the default of a rule's action) the code parsed as JSON and substituted (`substD`, RulioModel/Subst.lean). The
+value of a completed post action is the response body (the recording server answers "posted"); a code that is not JSON or
+whose substitution fails makes the action fail before anything is sent. -/
+
+/-- the `verif_tmpl` of a post action -/
+def postTmpl? (act : J) : Option Obj :=
+  match act with
+  | .obj o =>
+    (match Obj.get? o "verif_tmpl" with
+     | some (.obj t) => if Obj.get? t "t" == some (.str "post") then some t else none
+     | _ => none)
+  | _ => none
+
+/-- For the pure event model (`processEvent`) a post action is an `echo`: it completes, and its value is the stripped
+bindings of that execution — from which `applyPosts` computes the body and the real outcome. -/
+def hidePosts (cands : List (String × RuleM × Bool)) : List (String × RuleM × Bool) :=
+  cands.map (fun (id, r, en) => (id, { r with actions := r.actions.map (fun a =>
+    if (postTmpl? a).isSome then J.obj [("verif_tmpl", .obj [("t", .str "echo")])] else a) }, en))
+
+/-- Outcome of the post actions, in walk order, on the tree computed with `hidePosts`: the node of a completed post has the
+value "posted" and contributes one body to `posts`; a failed substitution is a failed node, which under `serialActions`
+stops the walk there (the rest of the tree is dropped, `aborted` is set). `noDef`: the location's control does not set
+`UseDefaultVariableValue` (DefaultControl sets it, with the value "undefined"). -/
+def applyPosts (noDef : Bool) (cands : List (String × RuleM × Bool)) (t : Tree) : Tree × List Json :=
+  let dflt : Option J := if noDef then none else some (.str "undefined")
+  let ruleOf (id : String) : Option RuleM := (cands.find? (fun x => x.1 == id)).map (·.2.1)
+  let stepAct (serial : Bool) (acc : Bool × List Json × List ActNode) (pa : ActNode × J) : Bool × List Json × List ActNode :=
+    let (stopped, posts, done) := acc
+    let (a, act) := pa
+    if stopped then acc else
+    match postTmpl? act, act with
+    | some tm, .obj ao =>
+      if !a.ok then (stopped, posts, done ++ [a]) else
+      let b : Bs := match a.value with | .obj env => env.map (fun kv => ("?" ++ kv.1, kv.2)) | _ => []
+      let subvars := Obj.get? ao "subvars" != some (.bool false)
+      let code : Except String J :=
+        if !subvars then .ok ((Obj.get? ao "code").getD .null)
+        else if Obj.get? tm "badjson" == some (.bool true) then .error "code is not JSON"
+        else substD dflt b ((Obj.get? tm "code").getD .null)
+      (match code with
+       | .ok cj =>
+         let body := Json.mkObj [("bindings", bsToJson b), ("opts", J.toJson ((Obj.get? ao "opts").getD .null)), ("code", J.toJson cj)]
+         (false, posts ++ [body], done ++ [{ ok := true, value := .str "posted" }])
+       | .error _ => (serial, posts, done ++ [{ ok := false, value := .null }]))
+    | _, _ => (stopped, posts, done ++ [a])
+  let (stopped, posts, rules') := t.rules.foldl (fun (acc : Bool × List Json × List RuleNode) r =>
+    if acc.1 then acc else
+    let (acts, serial) := match ruleOf r.id with | some rm => (rm.actions, rm.serial) | none => ([], false)
+    let (st1, ps1, conds') := r.conds.foldl (fun (acc2 : Bool × List Json × List CondNode) cn =>
+      if acc2.1 then acc2 else
+      let paired := cn.acts.zipIdx.map (fun (a, i) => (a, acts.getD (if acts.length == 0 then 0 else i % acts.length) .null))
+      let (st2, ps2, acts') := paired.foldl (stepAct serial) (false, acc2.2.1, [])
+      (st2, ps2, acc2.2.2 ++ [{ cn with acts := acts' }])) (false, acc.2.1, [])
+    (st1, ps1, acc.2.2 ++ [{ r with conds := conds' }])) (false, [], [])
+  let vals := rules'.flatMap (fun r => r.conds.flatMap (fun cn => (cn.acts.filter (·.ok)).map (·.value)))
+  ({ t with rules := rules', values := vals, aborted := t.aborted || stopped }, posts)
+
+/-- the event's output: the tree, plus `posts` when the event's candidates have a post action -/
+def withPosts (noDef : Bool) (cands : List (String × RuleM × Bool)) (t : Tree) : Json :=
+  if cands.any (fun x => x.2.1.actions.any (fun a => (postTmpl? a).isSome)) then
+    let (t', posts) := applyPosts noDef cands t
+    (treeJ t').setObjVal! "posts" (Json.arr posts.toArray)
+  else treeJ t
+
 def stepOp (sys : Sys) (op : Json) : Sys × Json :=
   let n := jstr op "loc"
   let now := jint op "now"
@@ -190,12 +259,12 @@ def stepOp (sys : Sys) (op : Json) : Sys × Json :=
              let (s1, en) := match s.at n (locRuleEnabled c rid now) with
                | (s1, .ok b) => (s1, b) | (s1, .error "disabled") => (s1, false) | (s1, .error "readDenied") => (s1, false) | (s1, .error _) => (s1, true)
              let cands := [(rid, r, en)]
-             let t := processEvent (srchOf s1 c n now) n ev cands
+             let t := processEvent (srchOf s1 c n now) n ev (hidePosts cands)
              let (s2, t') := applyEffects s1 c n now cands t
              -- RuleDone: a one-shot schedule ('+…' or '!…') removes the rule once it has been evaluated
              let s3 := if !t'.aborted && !t'.rules.isEmpty && (r.schedule.startsWith "+" || r.schedule.startsWith "!")
                then (s2.at n (locRemRule c rid now)).1 else s2
-             (s3, treeJ t'))
+             (s3, withPosts (jbool op "noDefaultVar") cands t'))
       | _ => fail sys "badTrigger"
     else
     let spec := specDispatch sys n ev now
@@ -207,9 +276,9 @@ def stepOp (sys : Sys) (op : Json) : Sys × Json :=
          let (s1, r) := acc.1.at n (locRuleEnabled c idr.1 now)
          let en := match r with | .ok b => b | .error "disabled" => false | .error _ => true
          (s1, acc.2 ++ [(idr.1, idr.2, en)])) (s, [])
-       let t := processEvent (srchOf s' c n now) n ev withEn
+       let t := processEvent (srchOf s' c n now) n ev (hidePosts withEn)
        let (s'', t') := applyEffects s' c n now withEn t
-       (s'', (treeJ t').setObjVal! "spec" spec))
+       (s'', (withPosts (jbool op "noDefaultVar") withEn t').setObjVal! "spec" spec))
   | "sleep" => (sys, okJ (Json.bool true))
   | o => (sys, errJ ("unknown op " ++ o))
 
